@@ -24,6 +24,10 @@ CLAIMED = {
    technique="deterministic simulation: producer and consumer tasks over a simulated bounded pipe under a seeded scheduler (streaming / ping-pong / close at boundary), byte accounting at the stream seam; sequential fault-free baseline",
    text="The stream-framing clause (the reader consumes exactly the bytes the writer produced; values written back to back are read one by one) is decided by a two-task message-stream simulation: bytes written per call versus bytes consumed per read are accounted at the seam, ping-pong mode deadlocks on any read-ahead, only read / write+flush may be called, a close at a value boundary must make the next read raise. The round-trip clause rides along as the fault-free baseline over seeded (schema, value) samples: evidence, not proof.",
    note="trusted: SimPipe = BufferedReader-over-pipe semantics (checked against a real os.pipe in the self-test); refavro.normal_eq for the documented normalisation; one known finding (omitted bytes/fixed defaults) is listed in KNOWN_FINDINGS.txt"),
+ "C04": dict(cat="exploration", ref="DESIGN.md 4 (C04)",
+   technique="deterministic simulation: writer and reader over simulated stream kinds (write-only sink, read-only sequential input, bounded pipe with a writer task and a reader task under a seeded schedule) with swarm-randomised knobs",
+   text="Every knob the property quantifies over (schema kind, record shapes incl. zero-byte and interval-threshold records, codec, sync_interval, level, marker, metadata, raw/parsed, stream kind) is drawn per run; the simulated streams expose only the permitted calls and log every call, the pipe configuration runs writer and reader concurrently under a seeded schedule and must neither deadlock nor leave bytes unread; the same records rewritten under a second sync_interval must read back identically. Record equality is the fault-free baseline over sampled schemas.",
+   note="trusted: simulated stream semantics (pipe = buffered reader over a pipe); refavro.normal_eq; fastavro's own canonical-form function applied to both the supplied and the reported schema"),
 }
 
 NA = {
